@@ -16,6 +16,7 @@ import Verif.Drv.Chain
 import Verif.Drv.Elements
 import Verif.Drv.Pool
 import Verif.Drv.Seed
+import Verif.Drv.Listeners
 
 open Verif.Drv
 
@@ -31,7 +32,8 @@ def registry : List (String × List (String × Model)) := [
   ("pool", poolModels),
   ("seed", seedModels),
   ("funding", fundingModels),
-  ("ledger", ledgerModels)
+  ("ledger", ledgerModels),
+  ("listeners", listenersModels)
 ]
 
 def findModel (ws : List String) : Option (Model × List String) :=
